@@ -181,7 +181,7 @@ def r3_unwrap(F, R, M):
     R.count('unwrap_sites_examined', n)
 
 
-def r4_raii(F, R, M):
+def r4_raii(F, R, M, rule='R4'):
     dma = M.dma_adt
     if not dma:
         raise Undecided('DMA owner type not found')
@@ -191,10 +191,10 @@ def r4_raii(F, R, M):
     for f in fields:
         for w, kind in field_writers(F, dma, f):
             if kind == 'store':
-                R.violated('R4', 'field-store:%s' % f, w, 'DMA owner field `%s` is assigned outside its constructor (in %s)' % (f, w))
+                R.violated(rule, 'field-store:%s' % f, w, 'DMA owner field `%s` is assigned outside its constructor (in %s)' % (f, w))
             else:
                 ctors.add(w)
-    R.check(len(ctors) == 1, 'R4', 'single-constructor', dma, 'constructed only in %s' % sorted(ctors), 'DMA owner is constructed in several places: %s' % sorted(ctors))
+    R.check(len(ctors) == 1, rule, 'single-constructor', dma, 'constructed only in %s' % sorted(ctors), 'DMA owner is constructed in several places: %s' % sorted(ctors))
     for c in ctors:
         sg = supergraph(F, c)
         paths = PathEnum(sg).run()
@@ -212,14 +212,14 @@ def r4_raii(F, R, M):
             allocs = [e for e in p.effects if e[0] == 'call' and e[4].get('method') == 'dma_alloc']
             # pages passed to alloc is the pages parameter stored
             zero_guard = any(c_[0][0] == 'bin' and c_[0][1] in ('Eq', 'Ne') and derives_from(c_[0], lambda x: x[0] == 'field' and x[2] == '0' and x[1][0] == 'call') for c_ in p.conds)
-            R.check(len(allocs) == 1 and zero_guard, 'R4', 'ctor:zero-address-checked', where, 'one allocation; zero physical address tested before the owner exists',
+            R.check(len(allocs) == 1 and zero_guard, rule, 'ctor:zero-address-checked', where, 'one allocation; zero physical address tested before the owner exists',
                     'constructor Ok path: %d allocations, zero-address test present=%s' % (len(allocs), zero_guard))
         errp = [p for p in paths if err_variant(p.ret) not in ('Ok', None)]
-        R.check(bool(errp), 'R4', 'ctor:failure-is-error', where, 'allocation failure returns Err', 'constructor has no Err path for a failed allocation')
+        R.check(bool(errp), rule, 'ctor:failure-is-error', where, 'allocation failure returns Err', 'constructor has no Err path for a failed allocation')
         inv = {v: k for k, v in roles.items()}
         drop = F.adts[dma].get('drop_impl')
         if not drop:
-            R.violated('R4', 'drop:exists', dma, 'DMA owner has no Drop: allocations are never returned')
+            R.violated(rule, 'drop:exists', dma, 'DMA owner has no Drop: allocations are never returned')
             continue
         dsg = supergraph(F, drop)
         dpaths = [p for p in PathEnum(dsg).run() if not p.panicked]
@@ -238,7 +238,7 @@ def r4_raii(F, R, M):
                 want = [inv.get('alloc.0'), inv.get('alloc.1'), pages_param[0] if pages_param else None]
                 ok = got == want
                 det = 'dealloc(%s), expected (%s)' % (got, want)
-            R.check(ok, 'R4', 'drop:dealloc-arguments', fn_site(F, drop), 'Drop returns (paddr, vaddr, pages) exactly as allocated',
+            R.check(ok, rule, 'drop:dealloc-arguments', fn_site(F, drop), 'Drop returns (paddr, vaddr, pages) exactly as allocated',
                     'Drop of the DMA owner does not return the allocation with its original address, pointer and page count: %s' % det)
     # no leaks of owners
     owners = {dma, M.queue_adt, M.owning_adt}
@@ -250,5 +250,5 @@ def r4_raii(F, R, M):
             if t['k'] == 'call' and (t.get('fn') in ('core::mem::forget', 'core::mem::ManuallyDrop::<T>::new') or t.get('fn', '').endswith('::leak')):
                 tys = ' '.join(t.get('arg_tys', []))
                 bad = [o for o in owners if o and o in tys]
-                R.check(not bad, 'R4', '%s:no-leak' % b['id'], fn_site(F, b['id']), 'leak operation on %s' % tys[:60],
+                R.check(not bad, rule, '%s:no-leak' % b['id'], fn_site(F, b['id']), 'leak operation on %s' % tys[:60],
                         'a value containing %s is leaked with %s: its DMA memory is never returned' % (bad, t['fn']))
